@@ -135,10 +135,11 @@ PROPS = {
         level_note="Wildcards are single-label (*.foo.com). The vault/consul/http sources share the watch loop; their transport is not exercised. When two certificates name the same host the later one is expected to win (that is what an index built in order does); first-wins would be flagged although the statement does not order them - no such set is in the alphabet except via the hand-picked pool where names are distinct.",
         units=[
         unit("c11-select", "cert", ["cert/c11_test.go"], "^TestVerifC11Select", engines=SCHED + ["vhook"]),
+        unit("c11-load", "cert", ["cert/c11_test.go", "cert/c11_load_test.go"], "^TestVerifC11Load", engines=SCHED + ["vhook"], rewrite=[{"files": ["cert/load.go"], "opts": ["-sortrange=pemBlocks", "-only", "loadCertificates"]}]),
         unit("c11-watch", "cert", ["cert/c11_test.go"], "^TestVerifC11Watch", engines=SCHED + ["vhook"], rewrite=[{"files": ["cert/watch.go"], "opts": ["-sel", "time.Sleep=vhook.Sleep"]}]),
         unit("c11-sched", "cert", ["cert/c11_test.go"], "^TestVerifC11Sched", engines=SCHED + ["vhook"], race=True, sched_env={"GOMAXPROCS": "1"}, shards={"quick": 1, "thorough": 16},
              rewrite=[{"files": ["cert/store.go"], "opts": ["-imports", "-stmt", "-only", "SetCertificates,certstore,getCertificate"]}, {"files": ["cert/source.go"], "opts": ["-imports", "-go", "-chan", "-only", "TLSConfig"]}]),
-    ], layers={"quick": ["c11-select", "c11-watch", "c11-sched"], "thorough": ["c11-select", "c11-watch", "c11-sched"]}),
+    ], layers={"quick": ["c11-select", "c11-load", "c11-watch", "c11-sched"], "thorough": ["c11-select", "c11-load", "c11-watch", "c11-sched"]}),
     "C19": dict(level="exploration", engine="benum",
         technique="bounded-exhaustive configuration product through transport.SetConfig and main.newHTTPProxy, plus a causal timeout scenario matrix",
         level_text="All 3^5 combinations of the five proxy transport options are pushed through the real transport.SetConfig and the three ways fabio builds transports (default, skip-verify, per-route host override) and read back field by field; the response-header timeout is additionally exercised end to end through ServeHTTP against an upstream that holds its headers until the harness releases it.",
@@ -152,9 +153,9 @@ PROPS = {
         level_text="Every registered option (derived from the tree at check time, ~150) x two well-formed values x six ways of giving it must load to deeply equal configurations; every ordered pair of the four source classes with two different values must resolve to the higher one; every environment block of <=2 entries of 16 (malformed included) and every properties file of <=2 of 12 lines must load or fail without panicking; every accepted glob.cache.size/strategy/matcher combination is built into the real HTTPProxy and serves requests.",
         level_note="Command-line junk is not enumerated (flag.ExitOnError exits the process by design). Values are well-formed for their kind; ill-formed values only appear in the robustness layer, where only 'no panic' is asserted.",
         units=[
-        unit("c15-config", "config", ["config/c15_test.go"], "^TestVerifC15"),
+        unit("c15-config", "config", ["config/c15_test.go", "config/c15_junk_test.go"], "^TestVerifC15"),
         unit("c15-runnable", ".", MAIN_COMMON + ["main/c19_test.go", "main/c15_test.go"], "^TestVerifC15", engines=["vhook"]),
-    ], layers={"quick": ["c15-sources", "c15-robust", "c15-runnable"], "thorough": ["c15-sources", "c15-robust", "c15-runnable"]}),
+    ], layers={"quick": ["c15-sources", "c15-robust", "c15-junk", "c15-runnable"], "thorough": ["c15-sources", "c15-robust", "c15-junk", "c15-runnable"]}),
     "C14": dict(level="exploration", engine="benum",
         technique="bounded-exhaustive catalog-entry enumeration through routecmd.build -> route.NewTable with an independent expectation; history variant through the C01 pipeline",
         level_text="The product of service names, addresses, ports, urlprefix forms, every <=2-subset of 16 option strings and 9 extra-tag shapes (quotes, backslashes, non-ASCII, newlines) is turned into route commands by the real routecmd.build next to a well-formed neighbour and fed to the real route.NewTable: the text must be accepted, the neighbour present, an expressible entry denoted exactly, an inexpressible one absent.",
@@ -207,7 +208,7 @@ PROPS = {
 LAYER_UNIT = {"c06-sched": "c06", "c03-select": "c03", "c03-lookuphost": "c03", "c04-add": "c04", "c04-weightcmd": "c04", "c05-commands": "c05",
               "c07-request": "c07", "c07-response": "c07", "c07-wire": "c07", "c07-history": "c07", "c08-headers": "c08", "c08-websocket": "c08", "c09-tunnels": "c09", "c09-proxyline": "c09-sockets", "c09-websocket": "c09-ws",
               "c10-sni": "c10", "c12-rules": "c12-rules", "c13-inputs": "c13", "c13-sched": "c13", "c14-registrations": "c14", "c15-sources": "c15-config",
-              "c15-robust": "c15-config", "c16-calls": "c16", "c16-history": "c16", "c19-config": "c19", "c19-behaviour": "c19", "c19-history": "c19", "c20-fields": "c20-logger", "c20-e2e": "c20-formatters",
+              "c15-robust": "c15-config", "c15-junk": "c15-config", "c16-calls": "c16", "c16-history": "c16", "c19-config": "c19", "c19-behaviour": "c19", "c19-history": "c19", "c20-fields": "c20-logger", "c20-e2e": "c20-formatters",
               "c20-formats": "c20-logger", "c20-atoi": "c20-logger", "c01-health": "c01-health"}
 
 def layer_unit(pid, layer):
